@@ -80,6 +80,13 @@ type Server struct {
 	Plan     func(url string) Reply
 	log      []*Record
 	stalling int
+	// Latency, if set, stands for the network's latency: it is called on the
+	// requesting goroutine, without the mutex, after the reply to a request has
+	// been decided and before every read from the connection.  (Under the
+	// cooperative scheduler, where the simulated clock stands still, it is a
+	// scheduling point; nil = no latency, the behaviour of the sequential
+	// modes.)
+	Latency func()
 }
 
 // Take returns and clears the request log.
@@ -178,6 +185,9 @@ type conn struct {
 }
 
 func (c *conn) Read(p []byte) (n int, err error) {
+	if f := c.srv.Latency; f != nil {
+		f()
+	}
 	if c.stallAt >= 0 && c.off >= c.stallAt {
 		c.stallAt = -1
 		c.srv.stall(1)
@@ -227,6 +237,9 @@ func (s *Server) RoundTrip(req *http.Request) (*http.Response, error) {
 	}
 	rec.Reply = s.Plan(rec.URL)
 	s.mu.Unlock()
+	if f := s.Latency; f != nil {
+		f()
+	}
 
 	r := &rec.Reply
 	if r.Kind == KindDial {
